@@ -108,6 +108,40 @@ def _register_buildable_defaults_aware_traversers(cls: Type[Buildable]):
   )
 
 
+def _same_sharing_structure(x: Any, y: Any) -> bool:
+  """Returns whether two value-equal structures share sub-objects alike."""
+  x_to_y = {}
+  y_to_x = {}
+
+  def visit(x_value, y_value) -> bool:
+    if daglish.is_internable(x_value) or daglish.is_internable(y_value):
+      return True
+    x_id, y_id = id(x_value), id(y_value)
+    if x_id in x_to_y or y_id in y_to_x:
+      return x_to_y.get(x_id) == y_id and y_to_x.get(y_id) == x_id
+    x_to_y[x_id] = y_id
+    y_to_x[y_id] = x_id
+    traverser = _defaults_aware_traverser_registry.find_node_traverser(
+        type(x_value)
+    )
+    if traverser is None or type(x_value) is not type(y_value):
+      return True  # Leaves; their values were compared already.
+    x_children = dict(
+        zip(traverser.path_elements(x_value), traverser.flatten(x_value)[0])
+    )
+    y_children = dict(
+        zip(traverser.path_elements(y_value), traverser.flatten(y_value)[0])
+    )
+    if x_children.keys() != y_children.keys():
+      return False
+    return all(
+        visit(x_child, y_children[path_element])
+        for path_element, x_child in x_children.items()
+    )
+
+  return visit(x, y)
+
+
 def _compare_buildable(x: Buildable, y: Buildable, check_dag: bool = False):
   """Compare if two Buildables are equal, including DAG structure."""
   assert isinstance(x, Buildable)
@@ -143,36 +177,13 @@ def _compare_buildable(x: Buildable, y: Buildable, check_dag: bool = False):
     if v1 != v2:
       return False
 
-  # Compare the DAG structure.
-  # The DAG stracture comparison must traverse the whole DAG and sort the
-  # result by path, which is expensive. Thus, we compare values first so
-  # that most unequal cases will not reach the expensive DAG compare step.
-  if check_dag:
-    x_elements = list(
-        daglish.iterate(
-            x,
-            memoized=True,
-            # Not to memorize internables during traversal, as they might
-            # be equal in value but have different object ids.
-            memoize_internables=False,
-            registry=_defaults_aware_traverser_registry,
-        )
-    )
-    y_elements = list(
-        daglish.iterate(
-            y,
-            memoized=True,
-            memoize_internables=False,
-            registry=_defaults_aware_traverser_registry,
-        )
-    )
-    # Compare the two path collections as multisets. (Sorting them would need
-    # a total order on paths, which does not exist when dict keys of different
-    # types, e.g. `0` and `'a'`, occur at the same position.)
-    x_paths = collections.Counter(elt[1] for elt in x_elements)
-    y_paths = collections.Counter(elt[1] for elt in y_elements)
-    if x_paths != y_paths:
-      return False
+  # Compare the DAG structure: the two (value-equal) structures are walked in
+  # lockstep, pairing children by path element, and must induce a one-to-one
+  # correspondence between their shared objects. Internable values (e.g.
+  # tuples of literals) are skipped, as they might be equal in value but have
+  # different object ids.
+  if check_dag and not _same_sharing_structure(x, y):
+    return False
 
   return True
 
